@@ -523,14 +523,14 @@ package generator
 // refs inside it resolve relative to it, C10), and its output file / package is
 // looked up by its $id (C13: $id and the legacy id are one identifier after
 // decoding; C20).
+// Two schemas are in the same Go package iff their package's import paths are
+// equal (the last path element alone is not enough: a/model and b/model differ):
+// only then is the reference left unqualified and no import added.
 //@ func (*schemaGenerator).generateReferencedType
 //@   props C10 C13 C20
 //@   arg-from addFile 0 call:QualifiedFileName:0
 //@   arg-from findOutputFileForSchemaID 0 field:ID
 //@   arg-from Load 0 call:extractRefNames:1
-// Two schemas are in the same Go package iff their package's import paths are
-// equal (the last path element alone is not enough: a/model and b/model differ):
-// only then is the reference left unqualified and no import added.
 //@   guarded AddImport unless-equal-fields QualifiedName
 
 // ---- the four bound keywords reach type selection in their own positions --------
